@@ -29,6 +29,10 @@ ASSUMPTIONS = [
     "usize is 64 bits; debug-build overflow checks (the harness is built with overflow-checks = true)",
 ]
 TRUSTED = [
+    "table-end-to-end stream: the table parser (harness/hx-fmt/src/e2e.rs), the expected bench set, the resolution of the "
+    "configured byte format (builder after from_args > flag > env > builder before config_with_args > decimal) and the "
+    "time-cell -> picosecond-interval computation are in ocaml/fmt.ml (not proved); each cell is then judged by the extracted "
+    "throughput_sb / bytes_sb / f64_sb_approx",
     "the single float-printing fact above (exercised on every duration case: the Sb for durations is exact)",
     "Scale suffix tables (KB, KiB, ... item/s) are literal in Model/FmtScale.v (not generated); checked by correspondence only",
     "precisions above 7 together with values whose pre-scaled integer reaches 10^15 are outside the model (outcome FInexact); "
@@ -267,7 +271,25 @@ def streams(tier, rng):
         Stream("display_throughput", "thr", thr, model_input=with_impl, nontrivial=nt_num,
                hist=dict(Counter("kind=" + c.split()[0] for c in thr))),
     ]
+    # ---- end to end: process arguments / environment / builder -> config_with_args -> run -> printed table
+    e2e = []
+    for rep in range(2 if quick else 12):
+        for api in ("main", "builder-binary", "builder-decimal", "pre-binary", "pre-decimal"):
+            for flag in ("-", "decimal", "binary"):
+                for envv in ("-", "decimal", "binary"):
+                    e2e.append(f"{api} {flag} {envv}")
+    sts.append(Stream("table-end-to-end", "e2e", e2e, model_input=with_impl,
+                      nontrivial=lambda c, m: m.startswith("ok ") and "0 item/s" in m and ("iB" in m or "KB" in m),
+                      hist=dict(Counter("api=" + c.split()[0] for c in e2e)),
+                      describe="real child process of hx-fmt with 7 #[divan::bench] functions (1 MiB copy with BytesCount, zero "
+                               "Items/Bytes/Chars/Cycles counters alone and beside a non-zero one, empty inputs with input_counter, "
+                               "one 2048-byte allocation under AllocProfiler, 1500 items); the byte format is given by --bytes-format, "
+                               "DIVAN_BYTES_FORMAT, Divan::bytes_format before or after config_with_args; every throughput cell must be "
+                               "the model's display_throughput(kind, count, p, configured format) for a p in the interval of picosecond "
+                               "values that print as the time cell of the same column, zero counts must print their `0 <unit>` row, "
+                               "alloc sizes must be format_bytes(2048, 4, configured format)"))
     if not quick:
+        sts.append(Stream("table-end-to-end-release", "e2e", e2e[:90], model_input=with_impl, release=True))
         sts.append(Stream("duration-display-release", "dur", dur[::4], nontrivial=nt_num, release=True))
         sts.append(Stream("display_throughput-release", "thr", thr[::4], model_input=with_impl, nontrivial=nt_num, release=True))
     return sts
